@@ -1272,7 +1272,7 @@ static bool configure(const std::string &job, Tier tier)
 	if (job == "buffer" || job == "buffer:typed") {
 		bool typed = job != "buffer";
 		cfg.depth = tier == Quick ? 5 : 40;
-		if (typed) cfg.rawcap = 1;
+		cfg.rawcap = 1;
 		// new: b = 2*kind + large, c = counter preset MAX-1
 		if (!typed) { for (int v : {0, 1}) { add_ops(o, B_NEW, S, 0, 0); for (size_t i = o.size() - S; i < o.size(); ++i) o[i].b = v; add_ops(o, B_NEW, S, 0, 1); for (size_t i = o.size() - S; i < o.size(); ++i) o[i].b = v; } }
 		else for (int v : {2, 3, 4, 0}) { add_ops(o, B_NEW, S, 0, 0); for (size_t i = o.size() - S; i < o.size(); ++i) o[i].b = v; }
@@ -1302,6 +1302,8 @@ static bool configure(const std::string &job, Tier tier)
 	else if (k == "group") { cfg.kinds = {K_CNT, K_CXX}; cfg.group = true; cfg.nslots = S = 2; cfg.cap = 2; cfg.rawcap = tier == Quick ? 1 : 2; cfg.cxx = false; cfg.clone = false; cfg.conv = false; }
 	else if (k == "mixed") { cfg.kinds = {K_GENINFO, K_RAW, K_REPLY, K_CXX}; cfg.cxx = false; cfg.traits = false; cfg.clone = false; }
 	else return false;
+	// two raw references per object only where the closed state space stays small; the other jobs close with one
+	if (!(k == "counting" || k == "geninfo" || k == "metabuffer" || k == "reply")) cfg.rawcap = 1;
 	for (int kind : cfg.kinds) { add_ops(o, M_NEW, S, 0, 0); for (size_t i = o.size() - S; i < o.size(); ++i) o[i].b = kind;
 		if (kpokeable(kind)) { add_ops(o, M_NEW, S, 0, 1); for (size_t i = o.size() - S; i < o.size(); ++i) o[i].b = kind; }
 		// the kinds counted through the C++ refcount wrappers also start at 2^32+1
